@@ -269,10 +269,12 @@ func (c *cors) handle(node types.Node, wh http.Header, r *http.Request) {
 		if len(r.Header.Values(header.AccessControlRequestMethod)) > 1 { // 只能有一个值，多个值时无法确定预检的是哪个请求方法。
 			return
 		}
-		if slices.Index(node.Methods(), reqMethod) < 0 {
+		// 只读取一次节点的请求方法，保证判断与输出的内容是同一时刻的值。
+		methods := node.Methods()
+		if slices.Index(methods, reqMethod) < 0 {
 			return
 		}
-		wh.Set(header.AccessControlAllowMethods, node.AllowHeader())
+		wh.Set(header.AccessControlAllowMethods, strings.Join(methods, ", "))
 		wh.Add(header.Vary, header.AccessControlRequestMethod)
 
 		// Access-Control-Allow-Headers
